@@ -18,7 +18,8 @@ CONFIG = {
     # ghost: the saved-state mapping most recently produced by Savable.save() of an object
     # INDEP: history flag of a Bundle: it was filled from a fresh deep copy of the saved state (set at construction)
     # LOADED: the object most recently recreated from a saved-state mapping (keyed by the mapping)
-    'ghost_arrays': {'LASTSAVED': 'val', 'INDEP': 'bool', 'LOADED': 'val'},
+    # SAVECTX: the save context a saved-state mapping was produced with (ghost of the assumed Savable.save)
+    'ghost_arrays': {'LASTSAVED': 'val', 'INDEP': 'bool', 'LOADED': 'val', 'SAVECTX': 'val'},
 }
 
 
@@ -359,7 +360,9 @@ def savable_save(self, save_context=None):
     LASTSAVED remembers it"""
     modifies()
     ghost_update('LASTSAVED', self, ret)
+    ghost_update('SAVECTX', ret, save_context)
     ensures(is_dict(ret) and fresh(ret) and dlen(ret) >= 0 and ghost('LASTSAVED', self) is ret and uf('saved_of', ret) is self)
+    ensures(ghost('SAVECTX', ret) is save_context)
     raises(Exception, True)
 
 
@@ -408,7 +411,7 @@ def saved_member(self, out_state, name, v0):
 
 
 @contract('plumpy.persistence.Savable.save_members', props=['C19', 'C07', 'C13'], ghost=['M', 'K'])
-def save_members(self, members, out_state, M=None, K=None):
+def save_members(self, members, out_state, save_context=None, M=None, K=None):
     """every declared member is recorded (M: an arbitrary member name), nothing else of the saved state is touched
     (K: an arbitrary other key), and the object itself is not modified"""
     requires(isinstance(self, Savable) and is_dict(out_state) and wf_state(out_state))
@@ -420,8 +423,11 @@ def save_members(self, members, out_state, M=None, K=None):
     v0 = attr(self, M)
     modifies(contents(out_state), contents(dget(out_state, '!!meta'), when=dhas(out_state, '!!meta')),
              contents(dget(dget(out_state, '!!meta'), 'types'), when=dhas(out_state, '!!meta') and dhas(dget(out_state, '!!meta'), 'types')),
-             ghost('LASTSAVED'))
+             ghost('LASTSAVED'), ghost('SAVECTX'))
     ensures('member_recorded', implies(dhas(members, M), saved_member(self, out_state, M, v0)))
+    # a nested Savable is saved WITH THE CONTEXT OF THIS SAVE (a per-save custom loader identifies the nested classes as well)
+    ensures('nested_saved_with_this_context', implies(dhas(members, M) and not is_method(v0) and isinstance(v0, Savable),
+                                                      ghost('SAVECTX', dget(out_state, M)) is save_context))
     ensures('other_entries_kept', implies(not dhas(members, K) and K != '!!meta', dhas(out_state, K) == old(dhas(out_state, K))
                                           and dget(out_state, K) is old(dget(out_state, K))))
     ensures('wf', wf_state(out_state))
@@ -429,8 +435,10 @@ def save_members(self, members, out_state, M=None, K=None):
     raises(Exception, exists(lambda k: dhas(members, k) and isinstance(attr(self, k), Savable)))
     loop_modifies(0, contents(out_state), contents(dget(out_state, '!!meta'), when=dhas(out_state, '!!meta')),
                   contents(dget(dget(out_state, '!!meta'), 'types'), when=dhas(out_state, '!!meta') and dhas(dget(out_state, '!!meta'), 'types')),
-                  ghost('LASTSAVED'))
+                  ghost('LASTSAVED'), ghost('SAVECTX'))
     loop_invariant(0, 'wf', wf_state(out_state))
+    loop_invariant(0, 'nested_context_so_far', implies(M in _seen and not is_method(v0) and isinstance(v0, Savable),
+                                                       ghost('SAVECTX', dget(out_state, M)) is save_context))
     # the metadata dictionaries are the ones that were there, or were made by this very call
     loop_invariant(0, 'meta_origin', implies(dhas(out_state, '!!meta'),
                                              (old(dhas(out_state, '!!meta')) and dget(out_state, '!!meta') is old(dget(out_state, '!!meta')))
@@ -443,6 +451,8 @@ def save_members(self, members, out_state, M=None, K=None):
     loop_invariant(0, 'others_kept', implies(not dhas(members, K) and K != '!!meta', dhas(out_state, K) == old(dhas(out_state, K))
                                              and dget(out_state, K) is old(dget(out_state, K))))
     replay('member_recorded', 'savable_members')
+    replay('nested_saved_with_this_context', 'savable_members')
+    replay('loop0.nested_context_so_far.preserved', 'savable_members')
     replay('other_entries_kept', 'savable_members')
     replay('loop0.recorded_so_far.preserved', 'savable_members')
     replay('loop0.others_kept.preserved', 'savable_members')
